@@ -386,9 +386,9 @@ theorem ellipse_axes (V : T9) (hve : 0 ≤ V.1) (hvn : 0 ≤ V.2.2.2.2.1)
 example : ∃ V : T9, 0 ≤ V.1 ∧ 0 ≤ V.2.2.2.2.1 ∧ V.2.1 ^ 2 ≤ V.1 * V.2.2.2.2.1 :=
   ⟨(2, 1, 0, 1, 2, 0, 0, 0, 1), by norm_num, by norm_num, by norm_num⟩
 
-/-- **C16.4b** the returned orientation `θ` (degrees, a bearing: clockwise from north) points along
-the major axis: `(sin θ, cos θ)` (east, north components) is an eigenvector of the horizontal block
-for the eigenvalue `a²`. Holds whenever `0 ≤ vₑ + vₙ` (in particular for a PSD block), including
+/-- **C16.4b** the returned orientation (degrees, a bearing: clockwise from north; `θ` below is that
+value converted to radians, `orientation·π/180`) points along the major axis: `(sin θ, cos θ)`
+(east, north components) is an eigenvector of the horizontal block for the eigenvalue `a²`. Holds whenever `0 ≤ vₑ + vₙ` (in particular for a PSD block), including
 the degenerate circular case `vₑ = vₙ, c = 0` where `atan2(0,0) = 0`. -/
 theorem ellipse_orientation (V : T9) (hs : 0 ≤ V.1 + V.2.2.2.2.1) :
     let ve := V.1
